@@ -41,7 +41,7 @@ EXPLANATION += (" Engine M (bounded symbolic execution of the MIR with z3): Univ
                 "VisualObservationAttributes return None exactly when the intersection is 0 (or a box is missing) and "
                 "intersection / (area1 + area2 - intersection) otherwise. Polygon generation, clipping and polygon area are "
                 "uninterpreted here (vertex formula: C19; clip on rotated boxes: outside).")
-ASSUMPTIONS += ["M: Polygon::from(&box), sutherland_hodgman_clip and unsigned_area are uninterpreted functions of their arguments; too_far an arbitrary Boolean; intersection values from the exact grid {0,.5,1,3,8}, box sizes from {1,2,4} x {.5,1,2}"]
+ASSUMPTIONS += ["M: Polygon::from(&box), sutherland_hodgman_clip and unsigned_area are uninterpreted functions of their arguments; too_far an arbitrary Boolean; angles None or from {0,.5,1,2.5,-.75,7}; intersection values from the exact grid {0,.5,1,3,8}, box sizes from {1,2,4} x {.5,1,2}"]
 
 
 def _geo_calls(P):
@@ -81,8 +81,9 @@ def _geo_calls(P):
 
 def _sym_ubox(vm, P, tag):
     has_angle = vm.choose_n(2, "%s angle given" % tag) == 0
-    ang = vm.fresh('f32', tag + '_angle')
-    vm.assume(fp_in(ang, -10.0, 10.0))
+    # angles from an exact grid (equal and different angles, negative, beyond pi): anything a changed implementation computes
+    # from them with + - * / floor abs is folded exactly; sin / cos stay uninterpreted
+    ang = grid_f32(vm, tag + '_angle', [0.0, 0.5, 1.0, 2.5, -0.75, 7.0])
     xc, yc = vm.fresh('f32', tag + '_xc'), vm.fresh('f32', tag + '_yc')
     vm.assume(z3.And(fp_in(xc, -1.0e4, 1.0e4), fp_in(yc, -1.0e4, 1.0e4)))
     asp = grid_f32(vm, tag + '_aspect', [0.5, 1.0, 2.0])
@@ -193,6 +194,22 @@ fn replay() {
         if exact > 0.0 { assert!(!Universal2DBox::too_far(&ua, &ub), "too_far must not reject overlapping boxes"); }
         let (va, vb) = (VisualObservationAttributes::new(0.5, ua.clone()), VisualObservationAttributes::new(0.5, ub.clone()));
         assert_eq!(VisualObservationAttributes::calculate_metric_object(&Some(&va), &Some(&vb)).is_none(), exact == 0.0);
+    } } }
+    // both boxes turned together about the origin: area and IoU are unchanged (rigid-motion invariance), also for EQUAL angles
+    for a in &rects { for b in &rects { for theta in [0.3f32, 0.6, 1.0, std::f32::consts::FRAC_PI_4, 2.5, -0.7] {
+        let turn = |r: &(f32, f32, f32, f32)| {
+            let (cx, cy) = (r.0 + r.2 / 2.0, r.1 + r.3 / 2.0);
+            Universal2DBox::new(cx * theta.cos() - cy * theta.sin(), cx * theta.sin() + cy * theta.cos(), Some(theta), r.2 / r.3, r.3)
+        };
+        let (ua, ub) = (turn(a), turn(b));
+        let exact = overlap(*a, *b);
+        let got = Universal2DBox::intersection(&ua, &ub);
+        assert!((got - exact).abs() <= 2e-2 * (1.0 + exact), "intersection of {:?} and {:?} both turned by {}: {} vs {}", a, b, theta, got, exact);
+        let iou = Universal2DBox::calculate_metric_object(&Some(&ua), &Some(&ub));
+        if exact == 0.0 { assert!(iou.is_none() || iou.unwrap() < 1e-3, "disjoint boxes turned together stay disjoint: {:?} {:?} {}", a, b, theta); } else {
+            let want = exact / ((a.2 * a.3 + b.2 * b.3) as f64 - exact);
+            assert!((iou.unwrap() as f64 - want).abs() < 2e-2, "IoU of {:?} {:?} both turned by {}: {:?} vs {}", a, b, theta, iou, want);
+        }
     } } }
 }
 '''
